@@ -63,7 +63,7 @@ pub fn run(cx: &mut Ctx) {
     cx.check("limit_denominator_closest", |cb| {
         // oracle: brute force over all denominators <= bound, minimising (distance, denominator)
         // (the order Python's Fraction.limit_denominator realises for bounds >= 2; validated against CPython offline)
-        for d in 1..=40i64 { for n in -45..=45i64 { for m in 2..=12i64 {
+        for d in 1..=40 * (if crate::scale() > 1 { 2 } else { 1 }) as i64 { for n in -45..=45i64 { for m in 2..=12 * (if crate::scale() > 1 { 2 } else { 1 }) as i64 {
             let x = Rational64::new(n, d);
             let got = match guard(|| quizx::phase::utils::limit_denominator(x, m)) { Ok(g) => g, Err(e) => { cb(&|| format!("limit_denominator({}/{}, {})", n, d, m), Err(e)); continue; } };
             let (xn, xd) = (*x.numer() as i128, *x.denom() as i128);
